@@ -64,15 +64,17 @@ func (s *sim) armCallCounter(cc *callCounter) {
 }
 
 type c07Scenario struct {
-	n       int
-	cascade bool
-	kind    string // to | from | auto | operator-failover
-	gtid    string // equal | tail | catch-up
-	wait    int
+	// oldStaysDown: after an automatic failover the crashed master never comes back
+	oldStaysDown bool
+	n            int
+	cascade      bool
+	kind         string // to | from | auto | operator-failover
+	gtid         string // equal | tail | catch-up
+	wait         int
 }
 
 func (sc c07Scenario) String() string {
-	return fmt.Sprintf("%dHA cascade=%v %s gtid=%s w=%d", sc.n, sc.cascade, sc.kind, sc.gtid, sc.wait)
+	return fmt.Sprintf("%dHA cascade=%v %s gtid=%s w=%d old-master-stays-down=%v", sc.n, sc.cascade, sc.kind, sc.gtid, sc.wait, sc.oldStaysDown)
 }
 
 var c07Kinds = []string{"to", "from", "auto", "operator-failover"}
@@ -171,6 +173,29 @@ func c07Run(c *vs.Case, t *testing.T, sc c07Scenario, k int, mode, successor str
 	}
 	calls, list = cc.n, cc.calls
 	c07Inside = cc.fired && cc.pendingAtFire
+	// What the successor inherits: "promoted-not-recorded" = some node other than the recorded
+	// master is already writable (the interrupted manager got past 'SET GLOBAL read_only = 0'
+	// but not to the write of the master key). Violations are signed with this window so that a
+	// known finding in it cannot hide a violation elsewhere.
+	window := "other"
+	if cc.fired {
+		s.w.Lock()
+		mk := s.masterKey()
+		for _, hn := range s.hostNames() {
+			h := s.w.Hosts[hn]
+			if _, casc := s.opts.Cascade[hn]; casc || hn == mk || !h.Up {
+				continue
+			}
+			if !h.RO {
+				window = "promoted-not-recorded"
+			} else if h.Chan == nil && window == "other" {
+				window = "reset-not-writable" // RESET REPLICA ALL done, not yet writable
+			}
+		}
+		s.w.Unlock()
+		window += fmt.Sprintf("/%dHA", sc.n)
+		c.Class("window:" + window)
+	}
 	if k > 0 && !cc.fired {
 		c.Class("crash-point-beyond-procedure")
 	}
@@ -194,7 +219,7 @@ func c07Run(c *vs.Case, t *testing.T, sc c07Scenario, k int, mode, successor str
 			}
 		}
 	}
-	if sc.kind == "auto" {
+	if sc.kind == "auto" && !sc.oldStaysDown {
 		s.startMySQL(master, true)
 	}
 	for i := 0; i < 2; i++ {
@@ -210,16 +235,25 @@ func c07Run(c *vs.Case, t *testing.T, sc c07Scenario, k int, mode, successor str
 	}
 	if _, pending := s.zkGet(pathCurrentSwitch); pending {
 		s.dumpTrace(traceFrom)
-		return calls, list, "c07-request-still-pending", fmt.Sprintf("%s, manager %s at call %d (%s), successor %s: the switch request is still pending after quiescence\n%s", sc, mode, k, callAt(list, k), successor, s.describe())
+		return calls, list, c07Sig("c07-request-still-pending", window), fmt.Sprintf("%s, manager %s at call %d (%s), successor %s: the switch request is still pending after quiescence\n%s", sc, mode, k, callAt(list, k), successor, s.describe())
 	}
 	if sig, msg := s.endStateOracle("c07"); sig != "" {
 		s.dumpTrace(traceFrom)
-		return calls, list, sig, fmt.Sprintf("%s, manager %s at call %d (%s), successor %s: %s\n%s", sc, mode, k, callAt(list, k), successor, msg, s.describe())
+		return calls, list, c07Sig(sig, window), fmt.Sprintf("%s, manager %s at call %d (%s), successor %s: %s\n%s", sc, mode, k, callAt(list, k), successor, msg, s.describe())
 	}
 	return calls, list, "", ""
 }
 
 var c07Inside bool
+
+// c07Sig: every end-state failure inherited from a half-done promotion (the promoted node already
+// stopped being a replica) has one root cause and one signature per window and cluster size.
+func c07Sig(sig, window string) string {
+	if strings.HasPrefix(window, "promoted-not-recorded") || strings.HasPrefix(window, "reset-not-writable") {
+		return "c07-unresumable-promotion@" + window
+	}
+	return sig + "@" + window
+}
 
 func callAt(list []string, k int) string {
 	if k >= 1 && k <= len(list) {
@@ -237,7 +271,7 @@ func TestVerifC07(t *testing.T) {
 	st.Assumptions = simAssumptions
 	st.Check(t, vs.CheckOpts{Bubble: true}, func(c *vs.Case) {
 		sc := c07Scenario{n: c.Src.Int("ha_hosts", 2, 4), cascade: c.Src.Int("cascade", 0, 3) == 0, kind: c.Src.Pick("request", c07Kinds...),
-			gtid: c.Src.Pick("gtid", c07Gtids...), wait: c.Src.Int("wait_count", 1, 2)}
+			gtid: c.Src.Pick("gtid", c07Gtids...), wait: c.Src.Int("wait_count", 1, 2), oldStaysDown: c.Src.Bool("old_master_stays_down")}
 		k := c.Src.Int("crash_at_call", 1, 170)
 		mode := c.Src.Pick("mode", "kill", "kill", "zk-loss")
 		succ := c.Src.Pick("successor", "same-host-now", "other-host")
@@ -266,13 +300,18 @@ func TestVerifC07Enumerate(t *testing.T) {
 			}
 		}
 	}
-	grid = append(grid, c07Scenario{n: 4, cascade: true, kind: "from", gtid: "catch-up", wait: 2}, c07Scenario{n: 3, cascade: true, kind: "auto", gtid: "tail", wait: 1})
+	grid = append(grid, c07Scenario{n: 4, cascade: true, kind: "from", gtid: "catch-up", wait: 2}, c07Scenario{n: 3, cascade: true, kind: "auto", gtid: "tail", wait: 1},
+		c07Scenario{n: 3, kind: "auto", gtid: "equal", wait: 1, oldStaysDown: true}, c07Scenario{n: 4, kind: "auto", gtid: "tail", wait: 1, oldStaysDown: true})
+	if vs.Tier() != "thorough" {
+		// the quick tier enumerates every call boundary of the two most important scenarios
+		grid = []c07Scenario{{n: 3, kind: "auto", gtid: "equal", wait: 1, oldStaysDown: true}, {n: 3, kind: "to", gtid: "tail", wait: 1}}
+	}
 	maxK := 150
 	if v := vs.Cases(0); v > 0 && v < maxK {
 		maxK = v // VERIF_CASES bounds k in development runs
 	}
 	st.Exhaustive = true
-	st.Rule = fmt.Sprintf("fault enumeration: for each of %d scenarios (2-3 HA hosts x 4 request kinds x {equal, tail} + 2 cascade shapes) the manager is killed at EVERY external call k in [1,%d] of the procedure (k beyond the procedure's K calls means no crash and is counted trivial) x successor {same host restarted at once, other host with restart 6 rounds later}; oracle: request no longer pending + C02 end state after quiescence; each (scenario,k,successor) cell is visited exactly once", len(grid), maxK)
+	st.Rule = fmt.Sprintf("fault enumeration: for each of %d scenarios (thorough: 2-3 HA hosts x 4 request kinds x {equal, tail} + 2 cascade shapes; quick: automatic failover and switch --to in a 3-node cluster) the manager is killed at EVERY external call k in [1,%d] of the procedure (k beyond the procedure's K calls means no crash and is counted trivial) x successor {same host restarted at once, other host with restart 6 rounds later}; oracle: request no longer pending + C02 end state after quiescence; each (scenario,k,successor) cell is visited exactly once", len(grid), maxK)
 	var cells [][]vs.Draw
 	for si := range grid {
 		for k := 1; k <= maxK; k++ {
